@@ -165,6 +165,7 @@ pub fn seeded_current_name(naming: NamingK) -> String {
         NamingK::NumbersDirect => "app_r00000.log".into(),
         NamingK::TimestampsDirect | NamingK::CustomDirect => "app_r2024-05-15_12-00-00.log".into(),
         NamingK::CoarseDirect => "app_d2024-05-15.log".into(),
+        NamingK::DayFirstDirect => "app_r15-05-2024_12-30-10.log".into(),
     }
 }
 
